@@ -133,40 +133,43 @@ def _profiles():
                 return np.vstack((fy, fx)).T
             return np.stack([fy, fx], axis=-1)
 
-        def _ret(self, grid, pairs, as_list):
+        def _ret(self, grid, pairs, as_list, kwargs=None):
             y, x = self._yx(grid)
+            # user keyword argument (as downstream profile methods take): the result is scaled by `gain`
+            # (powers of two, so the expectation stays exact)
+            gain = (kwargs or {}).get("gain", 1.0)
             if as_list:
-                res = [self._one(fn, y, x, pairs) for fn in self.fns[:self.nlist]]
+                res = [self._one(fn, y, x, pairs) * gain for fn in self.fns[:self.nlist]]
                 self.raw.append([_snap(r) for r in res])
             else:
-                res = self._one(self.fns[0], y, x, pairs)
+                res = self._one(self.fns[0], y, x, pairs) * gain
                 self.raw.append(_snap(res))
             return res
 
         # -- structure decorators -------------------------------------------------------------
         @dec.to_array
         def arr(self, grid, *args, **kwargs):
-            return self._ret(grid, False, False)
+            return self._ret(grid, False, False, kwargs)
 
         @dec.to_array
         def arr_list(self, grid, *args, **kwargs):
-            return self._ret(grid, False, True)
+            return self._ret(grid, False, True, kwargs)
 
         @dec.to_grid
         def grd(self, grid, *args, **kwargs):
-            return self._ret(grid, True, False)
+            return self._ret(grid, True, False, kwargs)
 
         @dec.to_grid
         def grd_list(self, grid, *args, **kwargs):
-            return self._ret(grid, True, True)
+            return self._ret(grid, True, True, kwargs)
 
         @dec.to_vector_yx
         def vec(self, grid, *args, **kwargs):
-            return self._ret(grid, True, False)
+            return self._ret(grid, True, False, kwargs)
 
         @dec.to_vector_yx
         def vec_list(self, grid, *args, **kwargs):
-            return self._ret(grid, True, True)
+            return self._ret(grid, True, True, kwargs)
 
         @dec.project_grid
         def proj(self, grid, *args, **kwargs):
@@ -320,7 +323,7 @@ def uniform_cases(draw):
     if kind == "values":
         values = draw(st.lists(coordinates(), min_size=2 * h * w, max_size=2 * h * w))
     return {"mask": mask, "ps": draw(gens.pixel_scales()), "origin": draw(gens.origins(mag=50.0)),
-            "grid_kind": kind, "values": values, "fns": draw(fn_lists()), "nlist": draw(st.integers(1, 3)),
+            "grid_kind": kind, "values": values, "fns": draw(fn_lists()), "nlist": draw(st.integers(1, 3)), "gain": draw(st.sampled_from([None, None, 2.0, -0.5, 4.0])), 
             "mode": draw(st.sampled_from(MODES))}
 
 
@@ -338,6 +341,9 @@ def _grid2d(aa, case):
 def body_uniform(case, ctx):
     aa = _aa()
     P = _profiles()
+    g = float(case.get("gain") or 1.0)
+    kw = {"gain": g} if case.get("gain") else {}
+    ctx.label("kwargs:gain" if kw else "kwargs:none")
     m, mask, grid, coords = _grid2d(aa, case)
     ps, origin = case["ps"], case["origin"]
     fns, k = case["fns"], case["nlist"]
@@ -348,23 +354,23 @@ def body_uniform(case, ctx):
     ctx.nt(_nt_fn(fns, 1) and _distinct(coords) >= 3)
     p = P["VPProfile"](fns, mode=case["mode"], nlist=k)
 
-    _check_2d(ctx, p.arr(grid), aa.Array2D, "to_array/grid2d", m, ps, origin, f_scalar(fns[0], coords))
-    _check_2d(ctx, p.grd(grid), aa.Grid2D, "to_grid/grid2d", m, ps, origin, f_pair(fns[0], coords))
-    _check_2d(ctx, p.vec(grid), aa.VectorYX2D, "to_vector_yx/grid2d", m, ps, origin, f_pair(fns[0], coords),
+    _check_2d(ctx, p.arr(grid, **kw), aa.Array2D, "to_array/grid2d", m, ps, origin, g * f_scalar(fns[0], coords))
+    _check_2d(ctx, p.grd(grid, **kw), aa.Grid2D, "to_grid/grid2d", m, ps, origin, g * f_pair(fns[0], coords))
+    _check_2d(ctx, p.vec(grid, **kw), aa.VectorYX2D, "to_vector_yx/grid2d", m, ps, origin, g * f_pair(fns[0], coords),
               coords=coords)
-    out = p.arr_list(grid)
+    out = p.arr_list(grid, **kw)
     if _check_list(ctx, out, k, "to_array/grid2d-list"):
         for j in range(k):
-            _check_2d(ctx, out[j], aa.Array2D, "to_array/grid2d-list", m, ps, origin, f_scalar(fns[j], coords))
-    out = p.grd_list(grid)
+            _check_2d(ctx, out[j], aa.Array2D, "to_array/grid2d-list", m, ps, origin, g * f_scalar(fns[j], coords))
+    out = p.grd_list(grid, **kw)
     if _check_list(ctx, out, k, "to_grid/grid2d-list"):
         for j in range(k):
-            _check_2d(ctx, out[j], aa.Grid2D, "to_grid/grid2d-list", m, ps, origin, f_pair(fns[j], coords))
-    out = p.vec_list(grid)
+            _check_2d(ctx, out[j], aa.Grid2D, "to_grid/grid2d-list", m, ps, origin, g * f_pair(fns[j], coords))
+    out = p.vec_list(grid, **kw)
     if _check_list(ctx, out, k, "to_vector_yx/grid2d-list"):
         for j in range(k):
             _check_2d(ctx, out[j], aa.VectorYX2D, "to_vector_yx/grid2d-list", m, ps, origin,
-                      f_pair(fns[j], coords), coords=coords)
+                      g * f_pair(fns[j], coords), coords=coords)
     # the function received the input coordinates, entry k for pixel k (all six calls)
     for s in p.spy:
         ctx.equal(s, coords, "decorated/grid2d/received", "grid received by the user function vs input grid")
@@ -387,13 +393,16 @@ def irregular_points(draw, lo=1, hi=30, elem=None):
 
 @st.composite
 def irregular_cases(draw):
-    return {"points": draw(irregular_points()), "fns": draw(fn_lists()), "nlist": draw(st.integers(1, 3)),
+    return {"points": draw(irregular_points()), "fns": draw(fn_lists()), "nlist": draw(st.integers(1, 3)), "gain": draw(st.sampled_from([None, None, 2.0, -0.5, 4.0])), 
             "mode": draw(st.sampled_from(MODES))}
 
 
 def body_irregular(case, ctx):
     aa = _aa()
     P = _profiles()
+    g = float(case.get("gain") or 1.0)
+    kw = {"gain": g} if case.get("gain") else {}
+    ctx.label("kwargs:gain" if kw else "kwargs:none")
     coords = np.asarray(case["points"], dtype=float).reshape(-1, 2)
     grid = aa.Grid2DIrregular(values=coords.copy())
     fns, k = case["fns"], case["nlist"]
@@ -403,23 +412,23 @@ def body_irregular(case, ctx):
     ctx.nt(_nt_fn(fns, 1) and _distinct(coords) >= 3)
     p = P["VPProfile"](fns, mode=case["mode"], nlist=k)
 
-    _check_irr(ctx, p.arr(grid), aa.ArrayIrregular, "to_array/irregular", f_scalar(fns[0], coords))
-    _check_irr(ctx, p.grd(grid), aa.Grid2DIrregular, "to_grid/irregular", f_pair(fns[0], coords))
-    _check_irr(ctx, p.vec(grid), aa.VectorYX2DIrregular, "to_vector_yx/irregular", f_pair(fns[0], coords),
+    _check_irr(ctx, p.arr(grid, **kw), aa.ArrayIrregular, "to_array/irregular", g * f_scalar(fns[0], coords))
+    _check_irr(ctx, p.grd(grid, **kw), aa.Grid2DIrregular, "to_grid/irregular", g * f_pair(fns[0], coords))
+    _check_irr(ctx, p.vec(grid, **kw), aa.VectorYX2DIrregular, "to_vector_yx/irregular", g * f_pair(fns[0], coords),
                coords=coords)
-    out = p.arr_list(grid)
+    out = p.arr_list(grid, **kw)
     if _check_list(ctx, out, k, "to_array/irregular-list"):
         for j in range(k):
-            _check_irr(ctx, out[j], aa.ArrayIrregular, "to_array/irregular-list", f_scalar(fns[j], coords))
-    out = p.grd_list(grid)
+            _check_irr(ctx, out[j], aa.ArrayIrregular, "to_array/irregular-list", g * f_scalar(fns[j], coords))
+    out = p.grd_list(grid, **kw)
     if _check_list(ctx, out, k, "to_grid/irregular-list"):
         for j in range(k):
-            _check_irr(ctx, out[j], aa.Grid2DIrregular, "to_grid/irregular-list", f_pair(fns[j], coords))
-    out = p.vec_list(grid)
+            _check_irr(ctx, out[j], aa.Grid2DIrregular, "to_grid/irregular-list", g * f_pair(fns[j], coords))
+    out = p.vec_list(grid, **kw)
     if _check_list(ctx, out, k, "to_vector_yx/irregular-list"):
         for j in range(k):
             _check_irr(ctx, out[j], aa.VectorYX2DIrregular, "to_vector_yx/irregular-list",
-                       f_pair(fns[j], coords), coords=coords)
+                       g * f_pair(fns[j], coords), coords=coords)
     for s in p.spy:
         ctx.equal(s, coords, "decorated/irregular/received", "grid received by the user function vs input grid")
 
@@ -461,7 +470,7 @@ def _grid1d(aa, spec):
 @st.composite
 def grid1d_cases(draw):
     return {"g1": draw(grid1d_specs()), "fns": draw(fn_lists()), "nlist": draw(st.integers(1, 3)),
-            "mode": draw(st.sampled_from(MODES))}
+            "gain": draw(st.sampled_from([None, None, 2.0, -0.5, 4.0])), "mode": draw(st.sampled_from(MODES))}
 
 
 def _check_line(ctx, spy, want_pts, key, scale):
@@ -476,6 +485,9 @@ def _check_line(ctx, spy, want_pts, key, scale):
 def body_grid1d(case, ctx):
     aa = _aa()
     P = _profiles()
+    g = float(case.get("gain") or 1.0)
+    kw = {"gain": g} if case.get("gain") else {}
+    ctx.label("kwargs:gain" if kw else "kwargs:none")
     spec = case["g1"]
     m, grid, xs = _grid1d(aa, spec)
     fns, k = case["fns"], case["nlist"]
@@ -494,9 +506,9 @@ def body_grid1d(case, ctx):
         if not ok or not _mask_same(ctx, out, m, ps, origin, key):
             return
         # the values are f at the points the function actually received (verified to be (0,x_k) at 1e-12)
-        ctx.equal(np.asarray(out.slim), f_scalar(fn, pts), key + "/values", "Array1D slim entries vs f((0,x_k))")
+        ctx.equal(np.asarray(out.slim), g * f_scalar(fn, pts), key + "/values", "Array1D slim entries vs f((0,x_k))")
         wn = np.zeros(m.shape)
-        wn[~m] = f_scalar(fn, pts)
+        wn[~m] = g * f_scalar(fn, pts)
         ctx.equal(np.asarray(out.native), wn, key + "/native", "Array1D native entries")
 
     def check_1d_grid(out, key, pts, fn):
@@ -505,20 +517,20 @@ def body_grid1d(case, ctx):
         ctx.check(ok, key + "/mask", "result of to_grid on a Grid1D is not on the 1D mask")
         if not ok:
             return
-        ctx.equal(np.asarray(out.slim), f_pair(fn, pts), key + "/values", "entries vs f((0,x_k)) pairs")
+        ctx.equal(np.asarray(out.slim), g * f_pair(fn, pts), key + "/values", "entries vs f((0,x_k)) pairs")
 
-    out = p.arr(grid)
+    out = p.arr(grid, **kw)
     if _check_line(ctx, p.spy[-1], line, "to_array/grid1d/projected-line", scale):
         check_1d(out, "to_array/grid1d", p.spy[-1], fns[0])
-    out = p.arr_list(grid)
+    out = p.arr_list(grid, **kw)
     if _check_line(ctx, p.spy[-1], line, "to_array/grid1d/projected-line", scale) and \
             _check_list(ctx, out, k, "to_array/grid1d-list"):
         for j in range(k):
             check_1d(out[j], "to_array/grid1d-list", p.spy[-1], fns[j])
-    out = p.grd(grid)
+    out = p.grd(grid, **kw)
     if _check_line(ctx, p.spy[-1], line, "to_grid/grid1d/projected-line", scale):
         check_1d_grid(out, "to_grid/grid1d", p.spy[-1], fns[0])
-    out = p.grd_list(grid)
+    out = p.grd_list(grid, **kw)
     if _check_line(ctx, p.spy[-1], line, "to_grid/grid1d/projected-line", scale) and \
             _check_list(ctx, out, k, "to_grid/grid1d-list"):
         for j in range(k):
